@@ -394,6 +394,9 @@ pub fn run_check(eng: &'static dyn Engine, o: &Opts) -> i32 {
                         *a.known_hits.entry(line).or_insert(0) += 1;
                     } else {
                         a.violations += 1;
+                        if std::env::var("VERIF_DEBUG").is_ok() {
+                            eprintln!("VIOL seed={seed} mode={mode} class={} detail={}", res.class, res.detail);
+                        }
                         if !a.found.iter().any(|f| f.0 == res.class) && a.found.len() < 3 {
                             a.found.push((res.class.clone(), plan.clone(), res.clone(), seed));
                         }
